@@ -201,8 +201,10 @@ pub fn record(args: &[String]) {
             w.emit(&json!({"i": seq, "ev": "tick", "d": a}));
             clock += a;
             pin(clock.div_euclid(86_400), clock.rem_euclid(86_400));
+            // always a record: {"fire": [dn, minute of day]} | {"odd": ..} | {"none": true} | {"panic": ..}
             let r = match guarded(|| sched.next().map(|d| proj_fire(&d))) {
-                Outcome::Ok(Some(v)) => v,
+                Outcome::Ok(Some(v)) if v.is_array() => json!({"fire": v}),
+                Outcome::Ok(Some(v)) => json!({"odd": v}),
                 Outcome::Ok(None) => json!({"none": true}),
                 Outcome::Panic(msg) => json!({"panic": chars(&msg)}),
             };
